@@ -8,15 +8,15 @@ def queries(tier, prop='C17'):
     ns = [int(x) for x in os.environ.get('C17_N', '9').split(',')]
     ws = [int(x) for x in os.environ.get('C17_W', '0').split(',')]
     sns = [int(x) for x in os.environ.get('C17_SN', '3').split(',')]
-    ALL = ['observe','observe_anypad','eq','ctor_default','ctor_ull','copy','set_all','reset_all','flip_all','set','set_dflt','reset','flip','ref_set','ref_flip','ref_set_ref_self','ref_set_ref_other','and_eq','or_eq','xor_eq','logic_self','binops','hist']
+    ALL = ['observe','observe_anypad','eq','ctor_default','ctor_ull','copy','assign','set_all','reset_all','flip_all','set','set_dflt','reset','flip','ref_set','ref_set_chain','ref_flip','ref_flip_chain','ref_set_ref_self','ref_set_ref_other','and_eq','or_eq','xor_eq','and_eq_self','or_eq_self','xor_eq_self','and','or','xor','hist']
     BO = ['not','to_string','to_string_anypad','to_string_dflt']
     STR = ['ctor_sv','ctor_sv_pn','ctor_sv_p','ctor_sv_dflt','ctor_cs','ctor_cs_npos','ctor_cs_n','ctor_cs_dflt']
     for n in ns:
         for w in ws:
             for e in ALL + (BO if w == 0 else []):
-                out.append(dict(entry='q_'+e, cfg={'NBITS': n, 'WSEL': w}, unwind=max(n,64)+2, budget=300, ub=ub, nofunc=ub))
+                out.append(dict(entry='q_'+e, cfg={'NBITS': n, 'WSEL': w}, unwind=max(n,64)+2, unwindset={'ll_memset.0': n+40, 'll_memcpy.0': n+40}, solver=os.environ.get('C17_SOLVER','kissat'), budget=300, ub=ub, nofunc=ub))
             if w == 0:
                 for sn in sns:
                     for e in STR:
-                        out.append(dict(entry='q_'+e, cfg={'NBITS': n, 'WSEL': w, 'SLEN': sn}, unwind=max(n,64,sn)+2, budget=300, ub=ub, nofunc=ub))
+                        out.append(dict(entry='q_'+e, cfg={'NBITS': n, 'WSEL': w, 'SLEN': sn}, unwind=max(n,64,sn)+2, unwindset={'ll_memset.0': n+40, 'll_memcpy.0': n+40}, solver=os.environ.get('C17_SOLVER','kissat'), budget=300, ub=ub, nofunc=ub))
     return out
